@@ -296,6 +296,15 @@ def heap_variants(R, E, F, rule, cfg):
     for adt, lim in ((FIXED, 'cap'), (GROWING, 'limit')):
         fn = fn_of(adt, 'push')
         for path in E.run(fn['path']):
+            if path.exit == 'panic':
+                # "Panics if the buffer is full": decided before the value is stored, never after (a capacity test
+                # that runs after push_back panics on the push that fills the last free slot)
+                if any(e['k'] == 'call' and e['name'] in ('push_back', 'push_front', 'insert') for e in path.events):
+                    R.fail(rule, [fn['path'], 'push-panics-after-storing'],
+                           'push stores the value and then panics on a capacity test', '%s:%s' % (fn['file'], fn['line']))
+                else:
+                    R.ok(rule, '%s|panics before storing' % fn['path'])
+                continue
             if path.exit != 'return':
                 continue
             pb = [e for e in path.events if e['k'] == 'call' and e['name'] in ('push_back', 'push_front', 'insert')]
